@@ -101,6 +101,35 @@ func setScenarios(c *Ctx) ([]drive.SetScenario, []string) {
 			}
 			add(fmt.Sprintf("held%d", k), drive.SetScenario{Members: hs, HoldMs: 120, Waits: [][]int{{40}, {40, 40}, {3000}}})
 		}
+		// different lifetimes: one process finishes at once, the other waits for its answer: a wait
+		// issued meanwhile must be false
+		add("mixed-lifetimes", drive.SetScenario{Members: []render.SetMember{
+			{P: trivialProc("quick"), Exec: true}, {P: taskProc("slow", 1), Exec: true}}, HoldMs: 150, Waits: [][]int{{50}, {3000}}})
+		add("mixed-lifetimes3", drive.SetScenario{Members: []render.SetMember{
+			{P: taskProc("one", 1), Exec: true}, {P: trivialProc("quick"), Exec: true}, {P: taskProc("three", 3), Exec: true}}, HoldMs: 60, Waits: [][]int{{90}, {3000}}})
+		// many callers already blocked in WaitUntilComplete when the last process completes
+		{
+			w := make([]int, 48)
+			for i := range w {
+				w[i] = 3000
+			}
+			for k := 0; k < 60; k++ {
+				add("many-waiters", drive.SetScenario{Members: []render.SetMember{{P: taskProc("held", 1), Exec: true}}, HoldMs: 25, Waits: [][]int{w}})
+			}
+		}
+		// two message flows instantiating two waiting processes that live differently long, next
+		// to a further executable process
+		{
+			th1, h1 := throwProc("thrower1")
+			th2, h2 := throwProc("thrower2")
+			w1 := taskProc("waiting1", 1)
+			w2 := taskProc("waiting2", 3)
+			ex := taskProc("bystander", 1)
+			sc := drive.SetScenario{Members: []render.SetMember{{P: th1, Exec: true}, {P: th2, Exec: true}, {P: ex, Exec: true}, {P: w1, Exec: false}, {P: w2, Exec: false}},
+				HoldMs: 40, Waits: [][]int{{130}, {3000}}}
+			sc.Flows = []render.MsgFlow{{Src: "P0_" + h1, Dst: "P3_" + w1.Nodes[0].Id}, {Src: "P1_" + h2, Dst: "P4_" + w2.Nodes[0].Id}}
+			add("msgflow-two-starts", sc)
+		}
 		// C01 programs side by side
 		var ms []render.SetMember
 		for i := 0; i < 2; i++ {
